@@ -724,7 +724,8 @@ def check_plural_path(ctx, r, rid="R4"):
     and whose failure is an `unwrap_at` panic) must ask for exactly that base key: both functions evaluated on the same key
     spellings, incl. bases that contain `_` or end in `_ordinal` themselves."""
     ast = ctx.ast
-    g = ast.fn(PM_, "get_value_at_path")
+    g = ast.fn(PM_, "get_value_at_plural_path") or ast.fn(PM_, "get_value_at_path")
+    plural_only = g is not None and g.name == "get_value_at_plural_path"          # (the lookup of the recorded path itself is done by the caller)
     ipp = ast.fn(PL_, "is_possible_plural")
     if g is None or ipp is None:
         r.missing("get_value_at_path / is_possible_plural")
@@ -747,7 +748,7 @@ def check_plural_path(ctx, r, rid="R4"):
 
         def gva(rv, a):
             asked.append(a[1])
-            return C("None") if len(asked) == 1 else C("Some", A("found"))
+            return C("None") if len(asked) == 1 and not plural_only else C("Some", A("found"))
         ev = AEval(funcs={}, builtins={"get_value_at": gva})
         ev.path_builtins = {"Key::new": lambda a: C("Some", CF("Key", name=a[0])) if a[0][0] == "str" and _re.match(r"^[A-Za-z_][A-Za-z0-9_]*$", a[0][1]) else C("None")}
         kp = CF("KeyPath", namespace=C("None"), path=L(K("grp"), K(nm)))
@@ -756,6 +757,8 @@ def check_plural_path(ctx, r, rid="R4"):
             raise Unknown("get_value_at_path on %s: %s" % (nm, got))
         n += 1
         want = CF("KeyPath", namespace=C("None"), path=L(K("grp"), CF("Key", name=base)))
+        if plural_only:
+            asked = [kp] + asked
         if not (len(asked) == 2 and asked[0] == kp and asked[1] == want and got == C("Some", A("found"))) and bad is None:
             bad = "the form key `%s` is merged under `%s`; a reference recorded inside it is looked up at %s (result %s)" % (
                 nm, base[1], [absint.fmt(absint.fields_of(x)["path"]) if x[0] == "ctor" else absint.fmt(x) for x in asked[1:]] or "nothing", absint.fmt(got)[:60])
